@@ -212,7 +212,7 @@ def run_body(body, case, ctx):
         r = body(case, ctx)
     except Violation as v:
         r = R().fail(v.bucket, v.msg)
-    except (KeyboardInterrupt, SystemExit, MemoryError):
+    except (KeyboardInterrupt, SystemExit, MemoryError, HarnessError):
         raise
     except Exception as e:  # noqa: an exception inside the domain is a failure of the property
         r = R().fail(exc_bucket(e), "%s: %s\n%s" % (type(e).__name__, e, traceback.format_exc()[-1200:]))
